@@ -387,6 +387,7 @@ def assist_proposals(run, twin=None):
             get_marked_import=lambda tree: None, extract_scope=lambda source, project: object(),
             get_marked_atribute=(lambda tree: anode) if path == 'attribute' else (lambda tree: None),
             get_marked_name=lambda tree: node, sorted=sorted_stub,
+            list=lambda x: ('list', x), tuple=lambda x: ('tuple', x), set=lambda x: ('set', x),
             list_packages=lambda project, root, filename: ['<packages>'], print_dump=lambda tree: None),
             comps={0: gen_schema}, comps_optional=True)
 
